@@ -287,6 +287,10 @@ def check(prop, tier, seed):
         "conformance_drift": drift[:20],
         "monitor": ("Monitors.tla checks tagged " + prop) if spec.get("pool", True) else "CompTrace.tla",
         "pool_fresh_run": not pres.get("cached", False),
+        # specification -> code: behaviours TLC generated from FFSM2.tla (simulation export, tours) that were replayed on the implementation
+        "spec_behaviours_replayed_on_impl": sum(pr["runs"].get(fam, {}).get("executions", 0) for pr in pres["profiles"].values() if pr.get("built") for fam in ("specsim", "tour")),
+        "scenario_families": sorted({fam for pr in pres["profiles"].values() if pr.get("built") for fam in pr["runs"]}),
+        "api_form_fallback_builds": sorted(n for n, pr in pres["profiles"].items() if pr.get("compat")),
     }
     cov.update(extra_cov)
     vlib.write_evidence(prop, tier, seed, LEVEL.get(prop, "model_checking"), cov, time.time() - t0, violations,
